@@ -180,9 +180,11 @@ HashStructOf(types, t, node) ==
   LET ms == types[t]
       names == {ms[m].name : m \in 1..Len(ms)}
   IN
-  IF Cardinality(names) # Len(ms) THEN OpenWord                           \* duplicate member names: undefined
-  ELSE IF \E m \in 1..Len(ms) : ~HasKey(node, ms[m].name) THEN Refuse("missing_member")
+  IF \E m \in 1..Len(ms) : ~HasKey(node, ms[m].name) THEN Refuse("missing_member")
   ELSE IF ObjKeys(node) # names THEN Refuse("extra_member")
+  \* a struct type that declares a member name twice: what its encoding is, is undefined (open) - but only for an object
+  \* with exactly the declared names; a missing or an undeclared member is refused like anywhere else
+  ELSE IF Cardinality(names) # Len(ms) THEN OpenWord
   ELSE
   LET es == Mat([m \in 1..Len(ms) |-> EncodeValue(types, ms[m].kind, ObjGet(node, ms[m].name))])
       c  == Worst({es[m].c : m \in 1..Len(es)})
